@@ -19,10 +19,28 @@ func init() {
 // kindSymOf returns the predicate selecting the Kind() results in fn and the domain of that kind type.
 func kindSymOf(p *Program, fn *ssa.Function) (func(ssa.Value) bool, []int64, types.Type) {
 	var kt types.Type
+	isKindRead := func(v ssa.Value) (types.Type, bool) {
+		switch x := v.(type) {
+		case *ssa.Call:
+			if f := x.Call.StaticCallee(); f != nil && f.Name() == "Kind" && p.InModule(f) && f.Signature.Recv() != nil {
+				return x.Type(), true
+			}
+		case *ssa.UnOp:
+			// a direct read of the kind field (code inside the package may skip the accessor)
+			if x.Op == token.MUL {
+				if fa, ok := x.X.(*ssa.FieldAddr); ok {
+					if tn, f, _ := fieldAddrInfo(fa); f == "kind" && (tn == "Block" || tn == "Inline") {
+						return x.Type(), true
+					}
+				}
+			}
+		}
+		return nil, false
+	}
 	eachInstr(fn, func(in ssa.Instruction) {
-		if call, ok := in.(*ssa.Call); ok {
-			if f := call.Call.StaticCallee(); f != nil && f.Name() == "Kind" && p.InModule(f) && f.Signature.Recv() != nil {
-				kt = call.Type()
+		if v, ok := in.(ssa.Value); ok {
+			if t, ok := isKindRead(v); ok {
+				kt = t
 			}
 		}
 	})
@@ -30,12 +48,8 @@ func kindSymOf(p *Program, fn *ssa.Function) (func(ssa.Value) bool, []int64, typ
 		return nil, nil, nil
 	}
 	isSym := func(v ssa.Value) bool {
-		call, ok := v.(*ssa.Call)
-		if !ok {
-			return false
-		}
-		f := call.Call.StaticCallee()
-		return f != nil && f.Name() == "Kind" && p.InModule(f) && f.Signature.Recv() != nil && types.Identical(call.Type(), kt)
+		t, ok := isKindRead(v)
+		return ok && types.Identical(t, kt)
 	}
 	e := newBSET(p)
 	dom, _ := e.domainFor(kt)
